@@ -249,6 +249,7 @@ Definition do_edit (s : state) owner sym nm max mintable : res state :=
   | Some t =>
       if negb (owner =? t_owner t) then RRej
       else if (0 <? max) && negb (edit_max_ok max (t_scale t) (supply_of s (t_minunit t))) then RRej
+      else if (0 <? max) && (max <? t_initial t) then RRej   (* [fix:] of the genesis group: the stored token must keep passing Token.Validate *)
       else
         let max' := if 0 <? max then max else t_max t in
         let nm' := if nm =? 0 then t_name t else nm in
